@@ -46,6 +46,8 @@ type Gen struct {
 	// Force: field numbers of the top-level message that are always populated (with a non-default
 	// value where the kind allows), so that a series of cases covers every field of a wide message
 	Force map[protoreflect.FieldNumber]bool
+	// LongLists is the probability (percent) that a populated scalar list gets 15..129 elements
+	LongLists int
 }
 
 // Cover arranges for case number c of n to force the fields whose index is congruent to c.
@@ -62,7 +64,7 @@ func (g *Gen) Cover(md protoreflect.MessageDescriptor, c, n int) {
 }
 
 func New(seed int64) *Gen {
-	return &Gen{R: rand.New(rand.NewSource(seed)), MaxDepth: 3, MaxLen: 4, Unknown: true, ZeroBias: 10, Budget: 80, left: 80}
+	return &Gen{R: rand.New(rand.NewSource(seed)), MaxDepth: 3, MaxLen: 4, Unknown: true, ZeroBias: 10, Budget: 80, left: 80, LongLists: 4}
 }
 
 func (g *Gen) i64() int64 {
@@ -292,7 +294,13 @@ func (g *Gen) Fill(m protoreflect.Message, depth int) {
 			if force && nn == 0 {
 				nn = 2
 			}
-			for n := nn; n > 0 && (g.left > 0 || force); n-- {
+			long := false
+			if fd.Message() == nil && g.LongLists > 0 && g.R.Intn(100) < g.LongLists {
+				// element counts around the 1-byte / 2-byte length-prefix boundaries of packed runs
+				nn = []int{15, 16, 17, 31, 32, 33, 127, 128, 129}[g.R.Intn(9)]
+				long = true
+			}
+			for n := nn; n > 0 && (g.left > 0 || force || long); n-- {
 				g.left--
 				if fd.Message() != nil {
 					sub := l.NewElement()
